@@ -37,3 +37,9 @@ def collect(P):
     P.flag("QG_LITERAL_REJECTS_BARE_EXISTS", g,
            r"fn literal\(inp: &str\) -> IResult<&str, UserInputAst> \{" + T + r"map_res\(" + T +
            r"field_name\.is_none\(\) && matches!\(leaf, UserInputLeaf::Exists \{ \.\. \}\)" + T + r"return Err\(")
+    # the `default` tokenizer of TokenizerManager::default(): SimpleTokenizer + RemoveLongFilter::limit(N) + LowerCaser;
+    # RemoveLongFilter keeps a token iff `token.text.len() < limit` (flag = 1) -- used by the phrase model of C16
+    P.int_const("QG_DEFAULT_TOKENIZER_LONG_LIMIT", "src/tokenizer/tokenizer_manager.rs",
+                r'"default",\s*TextAnalyzer::builder\(SimpleTokenizer::default\(\)\)\s*\.filter\(RemoveLongFilter::limit\((\d+)\)\)')
+    P.flag("QG_REMOVE_LONG_KEEPS_STRICTLY_SHORTER", "src/tokenizer/remove_long.rs",
+           r"fn predicate\(&self, token: &Token\) -> bool \{\s*token\.text\.len\(\) < self\.token_length_limit\s*\}")
